@@ -33,5 +33,5 @@ for fn in sorted(os.listdir(d)):
     for k, p in e["coverage"]["parts"].items():
         fz = "-"
         if "fuzz_execs" in p or "fuzz_notes" in p:
-            fz = "%d%s (%s%s)" % (p.get("fuzz_execs", 0), (", %d non-trivial in the campaign" % p["fuzz_nontrivial"]) if "fuzz_nontrivial" in p else "", "+".join(p.get("fuzz_corpora", [])), ("; " + "; ".join(p["fuzz_notes"])) if p.get("fuzz_notes") else "")
+            fz = "%d%s (%s%s)" % (p.get("fuzz_execs", 0), (", %d non-trivial in the campaign" % p["fuzz_nontrivial"]) if "fuzz_nontrivial" in p else "", ("48 generated buffers per shard" if k.startswith("cover-") else "+".join(p.get("fuzz_corpora", []))), ("; " + "; ".join(p["fuzz_notes"])) if p.get("fuzz_notes") else "")
         print("| %s | %s | %d | %d | %.2f | %d | %s |" % (e["property_id"], k, p["evaluations"], p["nontrivial"], p.get("slowest_s", 0), p.get("timeouts", 0), fz))
